@@ -585,6 +585,14 @@ class Analysis:
             if base in ("BitAnd", "BitOr", "BitXor", "Mul", "Add"):
                 parts.sort()
             lin = expr_sym("%s<%s>" % (base, aty), *parts)
+            if base == "BitAnd":
+                # x & mask is a multiple of the mask's lowest set bit
+                for m_ in (a, b):
+                    if m_ is not None and m_[0] == m_[1] and m_[0] > 0:
+                        low = m_[0] & -m_[0]
+                        if low > 1:
+                            sym_ = lin[1][0][0]
+                            st.cong[sym_] = st.cong.get(sym_, 1) * low // gcd(st.cong.get(sym_, 1), low)
         elif lin is not None and not (raw is not None and arng[0] <= raw[0] and raw[1] <= arng[1]):
             lin = expr_sym("w%s<%s>" % (base, aty), lin_repr(la), lin_repr(lb))  # may wrap
         res = raw if (raw is not None and arng[0] <= raw[0] and raw[1] <= arng[1]) else arng
@@ -925,6 +933,10 @@ class Analysis:
             if div and feasible:
                 lo, hi = div
                 vals = set(t["values"])
+                mod = self.op_cong(st, d)
+                if mod and mod > 1 and hi - lo <= 4096 and all(x in vals for x in range(lo + (-lo) % mod, hi + 1, mod)):
+                    feasible = False        # every value the discriminant can take (interval and congruence) has its own edge
+            if div and feasible:
                 while lo in vals and lo <= hi:
                     lo += 1
                 while hi in vals and hi >= lo:
